@@ -882,13 +882,14 @@ Plan gen_c18(uint64_t seed, bool th) {
   int nmon = 0;
   int nops = (int)g.r.range(8, th ? 70 : 30);
   static const char *mrules[] = {"type='signal'", "type='method_call'", "type='error'", "sender='org.freedesktop.DBus'", "interface='com.example.Iface'",
-                                 "member='NameOwnerChanged'", "path_namespace='/com/example'", "destination='$u0'", "sender='$u1'", "arg0='a'", "type='method_return'"};
+                                 "member='NameOwnerChanged'", "path_namespace='/com/example'", "destination='$u0'", "sender='$u1'", "arg0='a'", "type='method_return'",
+                                 "destination='com.example.nobody'", "destination='org.freedesktop.DBus'", "destination='com.example.a'", "destination='org.test.Svc'"};
   for (int i = 0; i < nops; i++) {
     int c = g.a_client();
     int x = (int)g.r.below(100);
     if (x < 10 && nmon < 3) {
       std::vector<std::string> rules;
-      if (g.r.pct(55)) { int n = (int)g.r.range(1, 3); for (int k = 0; k < n; k++) rules.push_back(mrules[g.r.below(11)]); }
+      if (g.r.pct(55)) { int n = (int)g.r.range(1, 3); for (int k = 0; k < n; k++) rules.push_back(mrules[g.r.below(15)]); }
       if (g.r.pct(6)) rules.push_back("type='bogus'");
       g.add(g.mk("becomemonitor", c, {g.r.pct(95) ? 0 : 1, -1}, rules));
       nmon++;
